@@ -6,6 +6,7 @@ equals the property (LimbLemma), and that the pre-fix wrapping formula does not 
 TLC checks the same operators exhaustively on a scaled-down copy.  Conformance: boundary-biased triples are
 executed on the real VouchedTime::new / check / now / get_local_time; TLC validates every verdict.
 """
+import json
 import os
 import random
 import re
@@ -122,9 +123,15 @@ def run_vt(res, work, tier, seed):
     trace = core.drive("vt", runs, work, "vt")
     tv = tlc.validate_trace("VtTrace", "VtTrace.cfg", trace, os.path.join(work, "tv"), timeout=3000)
     res.add_tv(tv, {r["run"]: r for r in runs}, "vt", "boundary-biased triples", crash_props=("C14",))
+    def near_edge(c):
+        if c.get("src") != "new":
+            return True
+        d = c["local_ms"] - c["base"]
+        return abs(d + 59900) <= 3 or abs(d - 2990) <= 3 or c["local_ms"] < 0 or c["base"] >= T64 - 70000
     res.data["witness"]["C14"] = {
-        "count": len(runs),
-        "rule": "distinct (local time, base time, voucher kind) triples executed on the real VouchedTime::new/check/now: both "
+        "count": len({json.dumps(r["cfg"], sort_keys=True) for r in runs if near_edge(r["cfg"])}),
+        "rule": "distinct triples within 3 ms of a window edge, before the epoch, or in the wrap region (of %d executed); " % len(runs)
+                + "(local time, base time, voucher kind) triples executed on the real VouchedTime::new/check/now: both "
                 "window edges +-2 at 20 base anchors (0, 59900, 2024, calendar max, 2^63, 2^64-k) x sub-millisecond parts, "
                 "the wrap region, local times before the epoch (also by < 1 ms), wrong vouchers, plus random triples "
                 "within +-3 of an edge"}
